@@ -52,7 +52,7 @@ for d in sorted(glob.glob(f'{STAGING}/out_C*')):
     # our check against it (apply to /repo, run, undo straight afterwards)
     sh(f'git -C /repo apply {patch}')
     try:
-        rcc, outc = sh(f'/venv/bin/python harness/check.py {pid} --tier quick', cwd=V)
+        rcc, outc = sh(f'/venv/bin/python harness/check.py {pid} --tier quick', cwd=V, env=dict(os.environ, SGZV_OUT='/tmp/mut/confirm_out'))
     finally:
         sh('git -C /repo checkout -- .')
     r['check_exit'] = rcc
